@@ -220,13 +220,13 @@ func ConcMain(dir, scriptPath string) int {
 	}
 	// all calls have returned: index.json must be the index of the resolver
 	// (C10_conc_quiescent_synced); judged by the parent when it did not kill us first
-	os.Stdout.WriteString("SYNC " + syncReport(ctx, st, dir) + "\n")
+	os.Stdout.WriteString("SYNC " + SyncReport(ctx, st, dir) + "\n")
 	os.Stdout.WriteString("DONE\n")
 	return 0
 }
 
-// syncReport compares the Store's resolver (Tags / Resolve) with index.json on disk.
-func syncReport(ctx context.Context, st *oci.Store, dir string) string {
+// SyncReport compares the Store's resolver (Tags / Resolve) with index.json on disk.
+func SyncReport(ctx context.Context, st *oci.Store, dir string) string {
 	idx, status := ReadRawIndex(dir)
 	if status != "ok" {
 		return "index.json is " + status
